@@ -6,7 +6,10 @@ Model of the neighbourhood queries of the legacy spaces of mesa/space.py (proper
 pop, result cache keyed by the argument tuple), `iter/get_neighbors`, `get_cell_list_contents`,
 `get_neighborhood_mask`, `_HexGrid.get_neighborhood` (breadth-first expansion with
 parity-dependent offsets, per-item update of `coordinates`, final sort) and
-`NetworkGrid.get_neighborhood / get_neighbors`.
+`NetworkGrid.get_neighborhood / get_neighbors`; and of `NetworkGrid` as a space of its own (C08-style):
+`place_agent / remove_agent / move_agent` (after the NG1 repair), `is_cell_empty`,
+`get_cell_list_contents` / `iter_cell_list_contents`, `get_all_cell_contents`, `agents`, histories `nrun`.
+Node ids are naturals `0..n-1`; an id `≥ n` is a node that does not exist (KeyError).
 -/
 namespace Mesa.Legacy
 
@@ -175,18 +178,70 @@ def remove (t : Net) (a : Aid) : Net × Res :=
       ({ t with content := fun u => if u = v then (t.content v).erase a else t.content u, pos := updA t.pos a none }, .ok)
     else (t, .err .value)
 
+/-- `NetworkGrid.move_agent` (after the NG1 repair: the target node's agent list is looked up first, so a
+    node that does not exist raises KeyError before anything changes), then `remove_agent`, `place_agent` -/
 def move (t : Net) (a : Aid) (v : Nat) : Net × Res :=
-  match t.remove a with
-  | (t1, .err e) => (t1, .err e)
-  | (t1, .ok) => t1.place a v
+  if v < t.n then
+    match t.remove a with
+    | (t1, .err e) => (t1, .err e)
+    | (t1, .ok) => t1.place a v
+  else (t, .err .key)
 
-/-- `get_cell_list_contents`: non-empty nodes, chained -/
+/-- `get_cell_list_contents` on nodes that exist: non-empty nodes, chained -/
 def cellsContents (t : Net) (nodes : List Nat) : List Aid :=
   (nodes.filter fun v => !(t.content v).isEmpty).flatMap t.content
+
+/-- `is_cell_empty`: `G.nodes[node_id]` raises KeyError for a node that does not exist -/
+def isCellEmpty (t : Net) (v : Nat) : Except Err Bool :=
+  if v < t.n then .ok (t.content v).isEmpty else .error .key
+
+/-- `get_cell_list_contents` / `list(iter_cell_list_contents(..))`: the lazy `filterfalse(is_cell_empty, ..)`
+    raises KeyError at the first node that does not exist; no partial list is returned -/
+def getCellListContents (t : Net) (nodes : List Nat) : Except Err (List Aid) :=
+  if nodes.all (fun v => decide (v < t.n)) then .ok (t.cellsContents nodes) else .error .key
+
+/-- iteration over `G`: the nodes in insertion order (the protocol builds the graph on `range(n)`) -/
+def allNodes (t : Net) : List Nat := List.range t.n
+
+/-- `get_all_cell_contents` -/
+def getAllCellContents (t : Net) : List Aid := t.cellsContents t.allNodes
+
+/-- `NetworkGrid.agents`: the node lists flattened into an `AgentSet` (first occurrences) -/
+def agentsList (t : Net) : List Aid := Grid.dedup (t.allNodes.flatMap t.content)
 
 def nbhd (t : Net) (v : Nat) (ic : Bool) (r : Nat) : List Nat :=
   netNbhd (adjOf t.edges) (fun v r => ball (adjOf t.edges) r v) v ic r
 
+/-- `get_neighborhood` as called: networkx raises (`NetworkXError` for radius 1, `NodeNotFound` otherwise) for a
+    node that is not in the graph -/
+def nbhdChecked (t : Net) (v : Nat) (ic : Bool) (r : Nat) : Except Err (List Nat) :=
+  if v < t.n then .ok (t.nbhd v ic r) else .error .noNode
+
 end Net
+
+/-- `_HexGrid.iter_neighbors` / `get_neighbors`: the neighbourhood goes through `iter_cell_list_contents`, which
+    indexes `_grid[x][y]` raw — for a centre outside the grid with `include_center` the centre itself is in the
+    list and is aliased (or raises IndexError) -/
+def hexNeighbors (g : Grid) (cells : List Coord) : Except Err (List Aid) :=
+  match g.rawCells cells with
+  | .error e => .error e
+  | .ok cs => .ok (cellsContents g cs)
+
+/-! ### NetworkGrid histories -/
+
+inductive NOp where
+  | place (a : Aid) (v : Nat)
+  | remove (a : Aid)
+  | move (a : Aid) (v : Nat)
+
+def nstep (t : Net) : NOp → Net × Res
+  | .place a v => t.place a v
+  | .remove a => t.remove a
+  | .move a v => t.move a v
+
+/-- a history; a call that raises is caught by the caller, who goes on with the state left behind -/
+def nrun (t : Net) : List NOp → Net
+  | [] => t
+  | op :: ops => nrun (nstep t op).1 ops
 
 end Mesa.Legacy
